@@ -38,6 +38,10 @@ Definition B_VREWBAL : N := 10.   (* rwcum_balance_<validator>    matured reward
 Definition B_VREWWD : N := 11.    (* rwcum_withdrawn_<validator>  withdrawn so far       *)
 Definition B_VREWPEND : N := 12.  (* rwz_<validator>_<interval>   interval rewards       *)
 
+(* side record: the wrapped-currency supply counter (balance of ChainDriverOption.TotalSupplyAddr in ETH / tokens): bookkeeping of
+   how much is in circulation, not value (C15) *)
+Definition B_SUPPLY : N := 14.
+
 (* bid app: the amount locked by the active bid offer of a conversation (no escrow account exists: the value lives in the offer
    record only); owner = the bidder, sub = conversation.  Counted in the chain total and in the bidder's holdings. *)
 Definition B_BIDESCROW : N := 13.
